@@ -364,3 +364,106 @@ def search_batched(r, epg, ncase):
                             "input": {"plan": plan, "float": isfloat, "x": x.tolist(), "bshape": list(bshape)}})
                 break
     return checked, dis
+
+
+# ---------------------------------------------------------------------------------------------
+# capped integer n-D programs (C13): epgpy's shiftnd under max_nstate / nmax vs `NDS.capShift` of the Lean model
+# (content of the state table after the whole program), incl. integer time accumulation (4th column, not capped)
+# ---------------------------------------------------------------------------------------------
+def gen_cap_case(r, maxlen=14):
+    dim = int(r.integers(1, 4))
+    cap = int(r.integers(1, 5))
+    pd = prog.pick(r, 0.3, 2.0, (1.0,), 0.5)
+    ops = []
+    for _ in range(int(r.integers(2, maxlen + 1))):
+        u = r.random()
+        if u < 0.5:
+            ops.append({"k": "pt", "o": prog.gen_op(r, POINT[r.integers(len(POINT))])})
+        elif u < 0.85:
+            v = r.integers(-2, 3, size=dim)
+            if not v.any():
+                v[int(r.integers(dim))] = 1
+            ops.append({"k": "Sint", "v": v.tolist()})
+        else:
+            ops.append({"k": "Cint", "m": int(r.integers(1, 6))})
+    return {"dim": dim, "cap": cap, "pd": pd, "ops": ops, "where": ["sm", "op"][r.integers(2)], "prune0": bool(r.random() < 0.5)}
+
+
+def run_epg_cap(case, epg):
+    kw = {"prune": 0} if case["prune0"] else {}
+    opkw = dict(kw, nmax=case["cap"]) if case["where"] == "op" else kw
+    ops = []
+    for o in case["ops"]:
+        if o["k"] == "pt":
+            ops.append(prog.to_epg(o["o"], epg))
+        elif o["k"] == "Sint":
+            ops.append(epg.S(np.array([o["v"]], dtype=int), **opkw))
+        else:
+            ops.append(epg.C(int(o["m"]), **opkw))
+    sm = epg.StateMatrix(density=case["pd"], **({"max_nstate": case["cap"]} if case["where"] == "sm" else {}))
+    for op in ops:
+        sm = op(sm, inplace=True)
+    states = np.asarray(sm.states)[0]
+    n = states.shape[0]
+    if sm.coords is None:
+        kk = np.zeros((n, 4)); kk[:, 0] = np.arange(-sm.nstate, sm.nstate + 1)
+    else:
+        c = np.asarray(sm.coords)[0]
+        kk = np.zeros((n, 4)); kk[:, : min(3, c.shape[1])] = c[:, :3]
+        if c.shape[1] == 4:
+            kk[:, 3] = c[:, 3]
+    return states, kk
+
+
+def lines_cap(case):
+    lines = ["case", f"ninit {f2b(case['pd'])}"]
+    for o in case["ops"]:
+        if o["k"] == "pt":
+            lines.append("npt " + prog.to_line(o["o"]))
+        elif o["k"] == "Sint":
+            v = (list(o["v"]) + [0, 0, 0])[:3]
+            lines.append(f"ncshift {case['cap']} {v[0]} {v[1]} {v[2]} 0")
+        else:
+            lines.append(f"ncshift {case['cap']} 0 0 0 {o['m']}")
+    lines.append("ndump")
+    return lines
+
+
+def compare_cap(cases, epg, tol=1e-9):
+    lines, expect = [], []
+    for case in cases:
+        try:
+            with warnings.catch_warnings():
+                warnings.simplefilter("ignore")
+                res = run_epg_cap(case, epg)
+        except Exception as exc:
+            expect.append(("error", repr(exc)))
+            continue
+        expect.append(res)
+        lines += lines_cap(case)
+    out = lib.run_driver(lines) if lines else []
+    pos, dis, checked = 0, [], 0
+    dist = {"states": 0, "with_time": 0, "beyond_cap_dropped": 0}
+    for case, ex in zip(cases, expect):
+        if isinstance(ex[0], str) and ex[0] == "error":
+            dis.append({"kind": "c13-cap-raised", "problems": [ex[1]], "input": case})
+            continue
+        states, kk = ex
+        model = parse_nd(out[pos]); pos += 1
+        checked += 1
+        dist["states"] += len(states)
+        dist["with_time"] += int(any(o["k"] == "Cint" for o in case["ops"]))
+        probs = []
+        real = {}
+        for st, k in zip(states, kk):
+            key = tuple(int(round(v)) for v in k)
+            real[key] = real.get(key, 0) + st
+        if any(max(abs(k[0]), abs(k[1]), abs(k[2])) > case["cap"] for k in real if np.any(np.abs(real[k]) > 0)):
+            probs.append(("a state beyond the cap is kept", case["cap"], sorted(real)[:4]))
+        for key in set(real) | set(model):
+            a = real.get(key, np.zeros(3)); b = model.get(key, np.zeros(3))
+            if np.max(np.abs(a - b)) > tol:
+                probs.append(("state at wavenumber index differs (epgpy, capped model)", key, np.asarray(a).tolist(), np.asarray(b).tolist())); break
+        if probs:
+            dis.append({"kind": "c13-cap", "problems": probs, "input": case})
+    return checked, dis, dist
